@@ -1,10 +1,12 @@
 package main
 
+import "golang.org/x/tools/go/ssa"
+
 import "strings"
 
 func init() {
 	register("C17", runC17, propMeta{
-		Explanation: "Decides the acquire/release pairing and conservation of engine instances, for all arrival orders and for requests that fail or panic: (W1) gengineWrapper values are allocated only in NewGenginePool, poolMinLen + (poolMaxLen - poolMinLen) of them with tags forming a bijection onto [0,max); the free lists are touched only by construction, getGengine and putGengineLocked, so a wrapper leaves a list only by the pop that hands it to one caller; (W2) in all 24 pool execute methods a deferred function is registered after a successful acquire before anything else runs or returns — defer covers error returns and panics — and it puts back the same wrapper exactly once; putGengineLocked appends it exactly once to the list selected by gw.addition under that list's lock; (W3) the head of a list is read and popped in one critical section under the list lock and the exclusive getEngineLock, so no two callers obtain the same wrapper; (W4) every return of getGengine yields the head of a list known non-empty and a nil error, its only other way on is the retry of the wait loop with no lock held, so busy callers wait and returning requests can always put. No pass of the wait loop ends without having found both lists empty. (W5) no pool mutex is held while rules run. (W6) every function that locks a mutex of the pool (getEngineLock, runningLock, additionLock, updateLock) unlocks it on every way out and holds it across code that can fault only with the unlock deferred: a leaked getEngineLock stops every later request beside free instances. Not decided: that a spinning waiter is eventually scheduled (fairness), timing. A request method makes one acquiring call and calls no other request method of the pool (one-acquire). In the deferred function no way to its end — a return or a panic raised again — avoids putGengineLocked (put-on-every-way-out). (W7) no lock of the product is held without a deferred unlock across code that can fault on rule data: the hand-back needs the data context's lock.",
+		Explanation: "Decides the acquire/release pairing and conservation of engine instances, for all arrival orders and for requests that fail or panic: (W1) gengineWrapper values are allocated only in NewGenginePool, poolMinLen + (poolMaxLen - poolMinLen) of them with tags forming a bijection onto [0,max); the free lists are touched only by construction, getGengine and putGengineLocked, so a wrapper leaves a list only by the pop that hands it to one caller; (W2) in all 24 pool execute methods a deferred function is registered after a successful acquire before anything else runs or returns — defer covers error returns and panics — and it puts back the same wrapper exactly once; putGengineLocked appends it exactly once to the list selected by gw.addition under that list's lock; (W3) the head of a list is read and popped in one critical section under the list lock and the exclusive getEngineLock, so no two callers obtain the same wrapper; (W4) every return of getGengine yields the head of a list known non-empty and a nil error, its only other way on is the retry of the wait loop with no lock held, so busy callers wait and returning requests can always put. No pass of the wait loop ends without having found both lists empty. (W5) no pool mutex is held while rules run. (W6) every function that locks a mutex of the pool (getEngineLock, runningLock, additionLock, updateLock) unlocks it on every way out and holds it across code that can fault only with the unlock deferred: a leaked getEngineLock stops every later request beside free instances. Not decided: that a spinning waiter is eventually scheduled (fairness), timing. A request method makes one acquiring call and calls no other request method of the pool (one-acquire). In the deferred function no way to its end — a return or a panic raised again — avoids putGengineLocked (put-on-every-way-out). (W7) no lock of the product is held without a deferred unlock across code that can fault on rule data: the hand-back needs the data context's lock. (W8) in prepare / prepareWithMultiInput nothing reachable after getGengine can fault: between the acquire and the registration of the deferred hand-back a panic would lose the instance.",
 		Assumptions: []string{"sync.Mutex/RWMutex contracts", "the Go runtime eventually schedules the goroutine started by putGengineLocked"},
 		Trusted:     commonTrusted,
 	})
@@ -24,6 +26,46 @@ func runC17(c *Ctx) {
 	// the hand-back deletes the request's keys under the data context's lock: a lock of the product left
 	// locked by a recovered fault (held without a deferred unlock across code that can fault on rule
 	// data, C09-R9) blocks that delete for ever and the instance never comes back
+	// between the acquire and the registration of the deferred hand-back nothing can fault: prepare* take the
+	// instance and the request methods defer its release right after them, so what prepare* do once they
+	// hold the instance (bind the builder, inject the request's data) must not be able to panic -- an
+	// instance held at that moment is lost
+	{
+		faults := c.faultFinder(map[string]bool{"ValueOf": true, "TypeOf": true, "IsValid": true, "Kind": true})
+		nWin := 0
+		for _, name := range []string{"prepare", "prepareWithMultiInput"} {
+			f := c.MustFn("W8-nothing-faults-before-the-release-is-deferred", "engine", "GenginePool", name)
+			if f == nil {
+				continue
+			}
+			var get ssa.Instruction
+			eachInstr(f, func(in ssa.Instruction) {
+				if call, ok := in.(*ssa.Call); ok && calleeIs(call, pEngine, "GenginePool", "getGengine") {
+					get = in
+				}
+			})
+			if get == nil {
+				c.Check("W8-nothing-faults-before-the-release-is-deferred", "GenginePool."+name, false, f.Pos(), "no call of getGengine found in %s", name)
+				continue
+			}
+			nWin++
+			why := ""
+			at, found := pathExists(f, get, func(in ssa.Instruction) bool {
+				if w := faults(in, 0); w != "" {
+					why = w
+					return true
+				}
+				return false
+			}, nil)
+			pos := f.Pos()
+			if found && at.Pos().IsValid() {
+				pos = at.Pos()
+			}
+			c.Check("W8-nothing-faults-before-the-release-is-deferred", "GenginePool."+name, !found, pos, "after the instance was taken %s runs %s: a fault there ends the request before its deferred hand-back exists, and the instance is lost", name, orStr(why, "nothing that can fault"))
+		}
+		c.Min("W8-nothing-faults-before-the-release-is-deferred", 2)
+		_ = nWin
+	}
 	c.ruleLockPanicSafe("W7-no-lock-left-behind-by-a-fault")
 	c.Min("W7-no-lock-left-behind-by-a-fault", 20)
 	c.ruleLifecycle("W5-no-pool-lock-while-rules-run", map[string]bool{"engine-call1-no-lock": true, "engine-call2-no-lock": true, "engine-call3-no-lock": true, "engine-call4-no-lock": true})
